@@ -13,9 +13,9 @@ using namespace tapkee::tapkee_internal;
 
 template <class P> static void dump_node(const node<P>& n, vk::It begin, std::string& out)
 {
-    // preorder: id:scale:nchildren:maxdist:parentdist
-    out += std::to_string((int)(n.p.iter_ - begin)) + ":" + std::to_string((int)n.scale) + ":" +
-           std::to_string((int)n.num_children) + ":" + vh::num(n.max_dist) + ":" + vh::num(n.parent_dist) + ",";
+    // preorder: id/scale/nchildren/maxdist/parentdist
+    out += std::to_string((int)(n.p.iter_ - begin)) + "/" + std::to_string((int)n.scale) + "/" +
+           std::to_string((int)n.num_children) + "/" + vh::num(n.max_dist) + "/" + vh::num(n.parent_dist) + ",";
     for (int i = 0; i < n.num_children; i++)
         dump_node(n.children[i], begin, out);
 }
@@ -70,7 +70,7 @@ int main()
     {
         if (line.empty())
             continue;
-        vh::case_alarm(300);
+        vh::case_alarm(120);
         auto f = vh::fields(line);
         vk::Space sp = vk::parse_space(f);
         std::vector<int> data(sp.N);
